@@ -356,31 +356,47 @@ def r194(ctx, R):
                 hts = ctx.raises.handler_types(f, h) or []
                 if 'oslo_db.exception.DBDuplicateEntry' not in hts:
                     continue
-                conts = [x for x in own_nodes_of(h)
-                         if isinstance(x, ast.Continue)]
-                rs = [ctx.raises.exc_name(f, r.exc) for r in own_nodes_of(h)
-                      if isinstance(r, ast.Raise) and r.exc is not None]
-                cond = [src(i[0].test) for c_ in conts
-                        for i in C.guarding_ifs(c_, h)]
-                okc = len(conts) == 1 and cond == [
-                    "'id' in %s.columns" % h.name] and rs == [
-                        'placement.exception.ResourceClassExists'] and \
-                    isinstance(h.body[-1], ast.Raise)
-                why = 'continue under %s, otherwise raise %s' % (cond, rs)
+                # the only raise of the handler is ResourceClassExists, it
+                # runs exactly when 'id' is not among the duplicate columns,
+                # and otherwise the handler lets the loop go on
+                raises_ = [r for r in own_nodes_of(h)
+                           if isinstance(r, ast.Raise) and r.exc is not None]
+                rs = [ctx.raises.exc_name(f, r.exc) for r in raises_]
+                cond = []
+                for r in raises_:
+                    cond = [ast.unparse(e) + ('' if p else ' [neg]')
+                            for e, p in C.conds(r, h, implicit=True)]
+                want = ["'id' in %s.columns [neg]" % h.name]
+                want2 = ["'id' not in %s.columns" % h.name]
+                goes_on = C._terminates(h.body) is False or any(
+                    isinstance(x, ast.Continue) for x in own_nodes_of(h))
+                okc = rs == ['placement.exception.ResourceClassExists'] \
+                    and cond in (want, want2) and goes_on
+                why = 'raise %s under %s; loop goes on otherwise: %s' % (
+                    rs, cond, goes_on)
     R.ob('R19.4', 'ResourceClass.create:collisions', okc,
          'an id collision is retried, any other duplicate is '
          'ResourceClassExists', why, func=f)
     # bounded retry ending in MaxDBRetriesExceeded
-    loops = [n for n in own_nodes(f.node) if isinstance(n, ast.While)]
+    loops = [n for n in own_nodes(f.node)
+             if isinstance(n, (ast.While, ast.For))
+             and cs and any(cs[0] is x for x in ast.walk(n))]
     okb = False
     if len(loops) == 1:
         lp = loops[0]
-        cnt = src(lp.test)
-        dec = [n for n in own_nodes_of(lp) if isinstance(n, ast.AugAssign)
-               and isinstance(n.op, ast.Sub) and src(n.target) == cnt]
         els = [ctx.raises.exc_name(f, r.exc) for r in lp.orelse
                if isinstance(r, ast.Raise) and r.exc is not None]
-        okb = len(dec) == 1 and els == [
+        if isinstance(lp, ast.While):
+            cnt = src(lp.test)
+            dec = [n for n in own_nodes_of(lp)
+                   if isinstance(n, ast.AugAssign)
+                   and isinstance(n.op, ast.Sub) and src(n.target) == cnt]
+            bounded = len(dec) == 1
+        else:
+            bounded = isinstance(lp.iter, ast.Call) and src(
+                lp.iter.func) == 'range'
+        brk = [x for x in own_nodes_of(lp) if isinstance(x, ast.Break)]
+        okb = bounded and bool(brk) and els == [
             'placement.exception.MaxDBRetriesExceeded']
     R.ob('R19.4', 'ResourceClass.create:bounded-retry', okb,
          'the retry loop is bounded and ends in MaxDBRetriesExceeded',
